@@ -141,7 +141,7 @@ theorem open_mode_table :
     writing; `<&` requires a readable, `>&` a writable descriptor; `>>|` and `<<<` are the operators
     rejected as unsupported; the `.` built-in opens its script read-only with O_CLOEXEC and no other
     flag; `exec`, `:` and `.` are special built-ins (a redirection error ends a non-interactive shell),
-    `command` is not -/
+    `command` is not; `here_doc::open_fd` sets no descriptor flag and closes the descriptor on failure -/
 theorem code_tables_posix :
     noclobberFirst.acc = .wo ∧ noclobberFirst.create = true ∧ noclobberFirst.excl = true ∧
       noclobberFirst.trunc = false ∧
@@ -151,7 +151,10 @@ theorem code_tables_posix :
     dotOpenArgs = ⟨.ro, false, false, false, false⟩ ∧ dotOpenCloexec = true ∧
     typeOfExec = .special ∧ typeOfColon = .special ∧ typeOfDot = .special ∧ typeOfCommand = .mandatory ∧
     Kind.isSpecial .exec = true ∧ Kind.isSpecial .colon = true ∧ Kind.isSpecial .dot = true ∧
-    Kind.isSpecial .commandExec = false := by decide
+    Kind.isSpecial .commandExec = false ∧
+    -- the here-document's descriptor is handed back without CLOEXEC (it can be the target itself, a user
+    -- descriptor 0–9, with no `dup2` in between) and is closed when its content cannot be written
+    hereDocCloexec = false ∧ hereDocClosesOnFailure = true := by decide
 
 /-- ★ for every oracle, table and redirection: when `perform` succeeds, the target descriptor is what
     POSIX says the operator makes of it (`Meaning`: a new non-CLOEXEC descriptor on a description
